@@ -1,6 +1,7 @@
 package props
 
 import (
+	"context"
 	"encoding/json"
 	"fmt"
 	"strings"
@@ -91,16 +92,36 @@ func checkLineTable(text []byte) string {
 	return ""
 }
 
-// checkRanges: every node range nests, children in order, expression nodes re-parse.
+// checkRanges: every node range nests, children in order, expression nodes re-parse - right after the parse, and
+// again after the tree has been evaluated and analysed (ranges are a property of the tree, not of its youth).
 func checkRanges(text []byte) string {
+	if msg := checkRangesOnce(text, false); msg != "" {
+		return msg
+	}
+	return checkRangesOnce(text, true)
+}
+
+func checkRangesOnce(text []byte, used bool) string {
 	out := obs.Parse(text)
 	if !out.OK() {
 		return "" // only accepted programs
 	}
+	prefix := ""
+	if used {
+		r := formula.NewRunner()
+		r.SetThis(map[string]interface{}{"a": 1, "b": "x", "c": nil})
+		obs.Eval(r, context.Background(), out.Src.Expression)
+		func() {
+			defer func() { recover() }()
+			formula.ResolveReferenceFields(out.Src)
+			formula.ResolveReferenceFieldsNotLocal(out.Src)
+		}()
+		prefix = "after the tree was evaluated and analysed: "
+	}
 	msg := ""
 	fail := func(f string, a ...interface{}) {
 		if msg == "" {
-			msg = fmt.Sprintf("%q: ", text) + fmt.Sprintf(f, a...)
+			msg = fmt.Sprintf("%q: ", text) + prefix + fmt.Sprintf(f, a...)
 		}
 	}
 	n := len(text)
@@ -402,6 +423,15 @@ func TestC15Ranges(t *testing.T) {
 		msg := checkRanges([]byte(text))
 		if msg == "" && !obs.Parse([]byte(text)).OK() {
 			msg = fmt.Sprintf("generated program %q rejected", text)
+		}
+		if msg == "" {
+			// the same program inside redundant, directly nested parentheses
+			for _, wrapped := range []string{"((" + text + ")) + 1", "f(((" + text + ")), ( (a) ))", "((( " + text + " ))) . k"} {
+				if m := checkRanges([]byte(wrapped)); m != "" {
+					msg, text = m, wrapped
+					break
+				}
+			}
 		}
 		if msg != "" {
 			run.Pending("ranges", "c15-ranges", mkTextCase(text, ""), msg)
